@@ -190,6 +190,27 @@ func matchRes(exp ref.Exp, got fx.Res, b *bij) error {
 		// message, so an unordered search would find a message inside the token that names it)
 		rest := got.Err
 		for _, part := range strings.Split(exp.Err, "\x00") {
+			if strings.HasSuffix(part, "\x01") { // this part ends its line of the (possibly grouped, multi-line) error text
+				part = strings.TrimSuffix(part, "\x01")
+				found := -1
+				for from := 0; from <= len(rest); {
+					k := strings.Index(rest[from:], part)
+					if k < 0 {
+						break
+					}
+					end := from + k + len(part)
+					if end == len(rest) || rest[end] == '\n' {
+						found = end
+						break
+					}
+					from += k + 1
+				}
+				if found < 0 {
+					return fmt.Errorf("%s: expected an error with a line ending with %q (after the preceding parts), observed %q", where, part, got.Err)
+				}
+				rest = rest[found:]
+				continue
+			}
 			at := strings.Index(rest, part)
 			if at >= 0 {
 				rest = rest[at+len(part):]
